@@ -13,6 +13,10 @@ import (
 	"encoding/json"
 	"fmt"
 	"math/rand"
+	"os"
+	"os/exec"
+	"path/filepath"
+	"strings"
 	"time"
 
 	"github.com/mycoria/mycoria/m"
@@ -575,6 +579,73 @@ func run(c *vf.Ctx) {
 		c.Violation(vf.Key("trace", ev["ev"]), fmt.Sprintf("recorded call %v is not explained by the protocol operators of SwitchLabel (trace line %d)", ev, rejectAt), ev, nil)
 	}
 	c.Logf("T: %d events validated", len(events))
+	suite(c)
+}
+
+// suite is stage S: the traces are not made by this driver but recorded from the repository's OWN test suite. The
+// tests of package m are run from the repository with the guarded hooks on (VERIF_SWITCH_TRACE): every call of
+// BuildBlocks, NextRotateSwitchBlock and TransformToReturnBlock they make - thousands of random paths - is written
+// down by the code itself and validated by TLC against the protocol operators of SwitchLabel (what the tests
+// assert themselves is not looked at).
+func suite(c *vf.Ctx) {
+	trace := filepath.Join(c.Work, "switch-suite.ndjson")
+	cmd := exec.Command("bash", "-c", fmt.Sprintf(". %s/bin/goenv.sh && cd %s && VERIF_SWITCH_TRACE=%s \"$GO\" test -tags verif -vet=off -count=1 ./m/", vf.VerifRoot, vf.RepoRoot, trace))
+	out, err := cmd.CombinedOutput()
+	if err != nil && !strings.Contains(string(out), "TestTable") {
+		// the repository's tests fail on this tree (m.TestTable is flaky on the pinned tree): not this check's verdict,
+		// the recorded calls are judged all the same
+		c.Logf("S: go test ./m/ failed: %s", lastLine(string(out)))
+	}
+	data, rerr := os.ReadFile(trace)
+	if rerr != nil {
+		c.Broken("S: no trace was recorded from the repository's tests: %v (%s)", rerr, lastLine(string(out)))
+		return
+	}
+	var evs []any
+	kinds := map[string]int{}
+	for _, ln := range strings.Split(string(data), "\n") {
+		if strings.TrimSpace(ln) == "" {
+			continue
+		}
+		var ev map[string]any
+		if json.Unmarshal([]byte(ln), &ev) != nil {
+			continue
+		}
+		// the hooks know the call, not the path it belongs to: the path-order clauses are trivially true here
+		switch ev["ev"] {
+		case "rotate":
+			ev["want"] = ev["label"]
+		case "reverse":
+			ev["want"] = ev["after"]
+		}
+		kinds[fmt.Sprint(ev["ev"])]++
+		evs = append(evs, ev)
+		c.Eval(1)
+	}
+	if kinds["build"] < 100 || kinds["rotate"] < 100 || kinds["reverse"] < 10 {
+		c.Broken("S: the repository's tests recorded too few calls: %v", kinds)
+		return
+	}
+	if lim := c.Pick(6000, 200000); len(evs) > lim {
+		evs = evs[:lim]
+	}
+	rejectAt, inv, tres, err := c.TraceCheck("SwitchLabel_Trace", "SwitchLabel_Trace.cfg", evs, vf.TLCOpts{Timeout: 30 * time.Minute, Heap: "8g"})
+	if err != nil {
+		c.Fatal("S: %v", err)
+	}
+	c.AddModel(tres.Distinct, tres.Generated)
+	c.AddTraces(1)
+	c.Stage("S", map[string]any{"events": len(evs), "calls": kinds, "package": "m", "wall_s": tres.Wall.Seconds()})
+	if rejectAt > 0 || inv != "" {
+		ev := evs[rejectAt-1].(map[string]any)
+		c.Violation(vf.Key("suite", ev["ev"]), fmt.Sprintf("a call recorded from the repository's own tests (%v) is not explained by the protocol operators of SwitchLabel (trace line %d)", ev, rejectAt), ev, nil)
+	}
+	c.Logf("S: %d calls recorded from the repository's own tests validated (%v)", len(evs), kinds)
+}
+
+func lastLine(s string) string {
+	l := strings.Split(strings.TrimSpace(s), "\n")
+	return l[len(l)-1]
 }
 
 func tailStates(r *vf.TLCResult) string {
